@@ -79,12 +79,13 @@ func main() {
 				// seed data so that the patterns have solutions
 				var ts []VTriple
 				var tt []string
-				for i := 0; i < 3+rnd.Intn(5); i++ {
+				for i := 0; i < 5+rnd.Intn(6); i++ {
 					t := g.DataTriple()
 					ts = append(ts, t)
 					tt = append(tt, b.TripleText(t))
 				}
 				tg := []string{gs[rnd.Intn(len(gs))]}
+				g.Filled = append(g.Filled, tg...)
 				stmts = append(stmts, VStmt{Kind: "insert", Gs: tg, Ts: ts, Text: "INSERT DATA INTO " + tg[0] + " { " + strings.Join(tt, " . ") + " };"})
 			}
 		}
